@@ -13,6 +13,9 @@ Definition recon_kill_states : list N := [
 ].
 (* does that test also look the task up in the roster of the current life? *)
 Definition recon_guarded : bool := true.
+(* reconciliationCall (installed in the SUBSCRIBED chain): is the implicit RECONCILE sent on every
+   SUBSCRIBED event, unconditionally? *)
+Definition reconcile_every_subscribed : bool := true.
 (* doKillTasks (KillTasks, Cleanup): do the tasks of the set that are not ACTIVE get a KILL call too? *)
 Definition kill_inactive : bool := true.
 (* the states in which Mesos considers a task alive (mesos.proto: non-terminal, reachable) *)
